@@ -82,6 +82,10 @@ var shapes = []shape{
 	{Name: "all-chan", Kind: "park", Body: "bc := chan()\nparked()\nall(bc)", CanExit: true},
 	{Name: "keys-chan", Kind: "park", Body: "bc := chan()\nparked()\nkeys(bc)", CanExit: true},
 	{Name: "sleep", Kind: "park", Body: "parked()\ntime.sleep(1000000)", CanExit: true},
+	// sleeps of an ordinary length (a minute), directly, inside a callback, inside a deferred function
+	{Name: "sleep-60s", Kind: "park", Body: "parked()\ntime.sleep(60)", CanExit: true},
+	{Name: "cb-map-sleep-60s", Kind: "park", Body: "[1, 2].map(func(x) { parked()\ntime.sleep(60) })", CanExit: true},
+	{Name: "defer-sleep-60s", Kind: "park", Body: "func work() { defer func() { parked()\ntime.sleep(60) }()\nreturn 1 }\nwork()", CanExit: true},
 	{Name: "thread-wait-blocked", Kind: "park", Body: "wt := spawn(func() { wc := chan()\n<-wc })\nparked()\nwt.wait()", CanExit: true},
 	// the thread runs host code that does not look at the context at all (hostblock() returns when the
 	// case is over): only Thread.Wait itself can notice the cancellation
